@@ -68,7 +68,8 @@ CHECKS["C19"] = dict(
           "real hotkey.Counter of capacity 1..255, checked after every step against a model map (admitted at 1, +1 per access, reset on "
           "Latch/Free): len <= capacity, exact counts for tracked keys, exactly one minimal-count key evicted on admission when full, "
           "frequency list strictly increasing / no empty node / back-pointers and map<->list agreement (VerifDump walk), Latch returns "
-          "exactly the tracked map. part collector: histories of accesses on 1..4 per-backend counters, collect, clock advance, evict, "
+          "exactly the tracked map. part counter-exhaustive: EVERY history of 8 (thorough 10) steps over {Incr k0..k3, Latch, Free} for the capacities "
+          "1, 2 and 3 (6^8 = 1.7 million histories per capacity; all shorter ones are prefixes), same oracle. part collector: histories of accesses on 1..4 per-backend counters, collect, clock advance, evict, "
           "counter free on a real Collector; after every step HotKeys() has <= capacity entries, unique names, non-increasing heat, only "
           "accessed names. part concurrent: goroutines Incr/Latch one counter; latched sum <= accesses and == accesses when capacity >= "
           "distinct keys. part e2e: a real proxy (collect interval hooked to 15 ms) in front of 1..3 simulated masters, 1..4 rounds of 1..300 "
@@ -80,6 +81,7 @@ CHECKS["C19"] = dict(
                  "the minute clock is constant during one collect()/evictStale() call"],
     parts=[
         dict(name="counter", test="TestCounterModel", kind="rapid", checks={"quick": 4000, "thorough": 250000}, shards=16, timeout={"quick": 600, "thorough": 3000}),
+        dict(name="counter-exhaustive", test="TestCounterExhaustive", kind="plain", shards=16, timeout={"quick": 600, "thorough": 3000}),
         dict(name="collector", test="TestCollectorModel", kind="rapid", checks={"quick": 3000, "thorough": 100000}, shards=8, timeout={"quick": 600, "thorough": 3000}),
         dict(name="concurrent", test="TestCounterConcurrent", kind="rapid", checks={"quick": 60, "thorough": 3000}, shards=4, timeout={"quick": 600, "thorough": 3000}),
         dict(name="e2e", test="TestHotkeyE2E", kind="rapid", checks={"quick": 12, "thorough": 600}, shards=8, timeout={"quick": 600, "thorough": 3000}, gomaxprocs=4),
